@@ -79,6 +79,13 @@ def build_state(cfg):
         )
     st = new_state(cfg["type"], cfg["nv"], cfg.get("nh"), cfg.get("na"), unitary_dict=udict)
     randomise(st, cfg["pseed"], cfg.get("scale", 1.0))
+    if cfg.get("param_layout") == "colmajor" and cfg["type"] != "density":
+        # the user assigned weight matrices built by a transpose: same values, column-major memory
+        # (PurificationRBM.gamma_grad uses .view on its weights and does not support this; not generated)
+        for net in st.networks:
+            for name, p in getattr(st, net).named_parameters():
+                if name.startswith("weights") and p.dim() == 2 and min(p.shape) > 1:
+                    p.data = p.data.t().contiguous().t()
     return st
 
 
@@ -128,7 +135,7 @@ def build_data(cfg, with_bases):
     return din, data, bases
 
 
-def make_witness(run, idx, handler=None, preempt=None, snapshot=True, flavour="class"):
+def make_witness(run, idx, handler=None, preempt=None, snapshot=True, flavour="class", retired=None):
     """A user callback that records every protocol event into the run log.
 
     handler(kind, args, idx, nn_state, seq) is called after logging.
@@ -138,6 +145,10 @@ def make_witness(run, idx, handler=None, preempt=None, snapshot=True, flavour="c
     seen = {"n": 0}
 
     def ev(kind, nn_state, *args):
+        if retired is not None and retired.get("v"):
+            # this callback object was taken out of the caller's list before the run: it must hear nothing
+            run.log.add("ev-retired", kind, idx)
+            return
         seen["n"] += 1
         if idx == 0 and preempt is not None:
             preempt.mark_event()
